@@ -38,6 +38,9 @@ var govcTotalDocs = []string{
 	"<html><body><p>" + govcWords + "</p><ul class=\"pager\">\n  <li>\n    <a href=\"/article/istanbul?page=1\">1</a>\n  </li>\n  <li>\n    <a href=\"/article/istanbul?page=2\">2</a>\n  </li>\n  <li>\n    <a href=\"/article/istanbul?page=3\">3</a>\n  </li>\n</ul></body></html>",
 }
 
+// every element name of the HTML standard, the obsolete ones browsers still know, and a custom element
+var govcAllTags = strings.Fields("a abbr acronym address applet area article aside audio b base basefont bdi bdo bgsound big blink blockquote body br button canvas caption center cite code col colgroup command data datalist dd del details dfn dialog dir div dl dt em embed fieldset figcaption figure font footer form frame frameset h1 h2 h3 h4 h5 h6 head header hgroup hr html i iframe image img input ins isindex kbd keygen label legend li link listing main map mark marquee math menu menuitem meta meter multicol nav nextid nobr noembed noframes noscript object ol optgroup option output p param picture plaintext pre progress q rb rp rt rtc ruby s samp script search section select slot small source spacer span strike strong style sub summary sup svg table tbody td template textarea tfoot th thead time title tr track tt u ul var video wbr xmp x-widget")
+
 var govcTotalURLs = []string{"", "http://ⱥ/x", "http://example.com/a/b/", "http://example.com/?page=1", "mailto:x@y", "http://example.com:8080/%2F/x?y=%zz", "http://example.com/wiki/İstanbul/2", "http://example.com/article/istanbul?page=2"}
 
 var govcTotalEvals, govcTotalNontrivial int
@@ -66,7 +69,7 @@ func govcCheckTotal(t *testing.T, what string, f func() (*Result, error)) {
 
 func TestGovcTotalityReplay(t *testing.T) {
 	defer func() {
-		fmt.Printf("GOVC-CASES evaluations=%d distinct_nontrivial=%d rule=%s\n", govcTotalEvals, govcTotalNontrivial, "17 documents (fragments, odd roots, hostile and pretty-printed pagers, hidden captions) x 8 page URLs x 2 algorithms x {ApplyForReader, every sub-element and detached clone as root, children of the document node, nil options} + hand-built nodes; non-trivial = a result (not an error) was returned")
+		fmt.Printf("GOVC-CASES evaluations=%d distinct_nontrivial=%d rule=%s\n", govcTotalEvals, govcTotalNontrivial, "element zoo (every HTML element name, current and obsolete, nested in itself x 4 contexts) + 17 documents (fragments, odd roots, hostile and pretty-printed pagers, hidden captions) x 8 page URLs x 2 algorithms x {ApplyForReader, every sub-element and detached clone as root, children of the document node, nil options} + hand-built nodes; non-trivial = a result (not an error) was returned")
 		fmt.Printf("GOVC-SAMPLE Apply on every element of %q as root\n", govcTotalDocs[1])
 	}()
 	for di, src := range govcTotalDocs {
@@ -99,6 +102,17 @@ func TestGovcTotalityReplay(t *testing.T) {
 				}
 				govcCheckTotal(t, "Apply(nil options) "+what, func() (*Result, error) { return Apply(doc, nil) })
 			}
+		}
+	}
+	// element zoo: every HTML element name (current, obsolete and a custom one) with words inside, nested in itself,
+	// in four contexts (between paragraphs, in a list item, in a blockquote, in a table cell)
+	for _, tag := range govcAllTags {
+		for ci, ctx := range []string{"%s", "<ul><li>%s</li></ul>", "<blockquote>%s</blockquote>", "<table><tr><td>%s</td><td>cell</td></tr></table>"} {
+			el := "<" + tag + " class=\"zoo\" id=\"z1\">" + govcWords + "<" + tag + ">inner " + govcWords + "</" + tag + "> tail</" + tag + ">"
+			src := "<html><head><title>Zoo page</title></head><body><article><p>" + govcWords + "</p>" + fmt.Sprintf(ctx, el) + "<p>" + govcWords + "</p></article></body></html>"
+			u, _ := nurl.Parse("http://example.com/a/b/")
+			opts := &Options{OriginalURL: u, PaginationAlgo: PageNumber}
+			govcCheckTotal(t, fmt.Sprintf("ApplyForReader zoo <%s> context %d", tag, ci), func() (*Result, error) { return ApplyForReader(strings.NewReader(src), opts) })
 		}
 	}
 	// hand-built nodes
